@@ -1,0 +1,50 @@
+# Copyright (C) 2019-2024 Intel Corporation
+# SPDX-License-Identifier: BSD-3-Clause
+"""
+Optional event tracing used by external verification tooling.
+
+Disabled unless the environment variable ``CBI_VERIF`` is set to ``1``.
+When enabled, :func:`emit` appends one JSON object per line to the file
+named by ``CBI_VERIF_TRACE`` (or keeps events in memory if unset, see
+:func:`drain`). Events carry a per-process sequence number.
+"""
+
+import json
+import os
+
+ENABLED = os.environ.get("CBI_VERIF") == "1"
+
+_seq = 0
+_fp = None
+_mem = []
+
+
+def emit(ev: str, **fields):
+    """
+    Record an event. A no-op unless tracing is enabled.
+    """
+    if not ENABLED:
+        return
+    global _seq, _fp
+    _seq += 1
+    rec = {"seq": _seq, "ev": ev}
+    rec.update(fields)
+    path = os.environ.get("CBI_VERIF_TRACE")
+    if not path:
+        _mem.append(rec)
+        return
+    if _fp is None or _fp.name != path:
+        if _fp is not None:
+            _fp.close()
+        _fp = open(path, "a")
+    _fp.write(json.dumps(rec, default=str) + "\n")
+    _fp.flush()
+
+
+def drain() -> list[dict]:
+    """
+    Return and clear the events recorded in memory.
+    """
+    out = _mem[:]
+    del _mem[:]
+    return out
